@@ -643,7 +643,7 @@ class Machine(Interp):
                     return BoundMethod(f, o)
                 c, a = o.cls.find_class_attr(name)
                 if a is not None:
-                    return self.eval(a, Env(c.module, {}, [], None, c))
+                    return self.eval(a, Env(c.module, self.class_locals(c), [], None, c))
                 if o.cls.is_dataclass:
                     pass
             if o.from_decl:
@@ -663,7 +663,7 @@ class Machine(Interp):
                 return f
             c, a = o.info.find_class_attr(name)
             if a is not None:
-                return self.eval(a, Env(c.module, {}, [], None, c))
+                return self.eval(a, Env(c.module, self.class_locals(c), [], None, c))
             if name in o.info.inner:
                 return ClassRef(get_classinfo(self.repo, o.info.module, o.info.inner[name], o.info.qual + "." + name))
             if name == "__name__":
@@ -705,6 +705,10 @@ class Machine(Interp):
         if o is None:
             raise PyRaise("AttributeError", node, msg="None.%s" % name)
         raise Unsupported("attribute %r of %r" % (name, o), node)
+
+    def class_locals(self, c):
+        """names visible inside a class body: its nested classes (class-level assignments may refer to them)"""
+        return {nm: ClassRef(get_classinfo(self.repo, c.module, node, c.qual + "." + nm)) for nm, node in c.inner.items()}
 
     def func_of_method(self, c, m):
         f = Func(m, c.module, defcls=c, qual="%s:%s.%s" % (c.module.name, c.qual, m.name))
